@@ -146,8 +146,8 @@ def main():
                 report[k] = prev[k]
     m = {
         "property": prop,
-        "breaks": meta.get("summary"),
-        "needs_to_manifest": meta.get("needs"),
+        "breaks": meta.get("summary") or meta.get("breaks"),
+        "needs_to_manifest": meta.get("needs") or meta.get("needs_to_manifest"),
         "files_touched": meta.get("files_touched"),
         "what_i_ran": {
             "confirmation": "scratch worktree of /repo HEAD: git apply patch.diff; go build ./...; go test -vet=off -count=1 ./... (whole suite); demonstration with and without the change",
